@@ -245,6 +245,16 @@ func (x *g) goal(d int) *rt.Term {
 			return rt.C("\\+", x.conj(d-1, 2, x.f.Cut))
 		}},
 		{x.f.Catch, func() *rt.Term {
+			// dedicated productions for the two rare shapes: a throw in the continuation of a catch/3
+			// whose goal has exited, and a throw after backtracking into the goal
+			v := x.v()
+			if x.p(50, "afterexit") {
+				return Conj([]*rt.Term{rt.C("catch", rt.C("n", v), x.catcher(), x.conj(d-1, 2, false)), x.simpleGoal(), rt.C("throw", x.ball())})
+			}
+			thrower := rt.C(";", rt.C("->", rt.C("==", v, rt.I(int64(x.n(1, 3, "when")))), rt.C("throw", x.ball())), rt.A("true"))
+			return Conj([]*rt.Term{rt.C("catch", rt.C(",", rt.C("n", v), thrower), x.catcher(), x.conj(d-1, 2, false)), rt.C("\\==", v, rt.I(1))})
+		}},
+		{x.f.Catch, func() *rt.Term {
 			switch x.n(0, 6, "catchkind") {
 			case 0, 1, 2:
 				return rt.C("catch", x.conj(d-1, 3, x.f.Cut), x.catcher(), x.conj(d-1, 2, false))
